@@ -396,6 +396,9 @@ func genYPathCase(r *Rng, tier string) Case {
 	if tier == "thorough" {
 		g.maxDepth = 2 + r.Intn(3)
 	}
+	// statements that path validation must not look at (defaults, mandatory, min/max-elements, ordered-by)
+	// are present in most schemas
+	g.forData = r.Chance(65)
 	top := g.genKids(0, false)
 	var names []string
 	allNames(top, &names)
